@@ -660,6 +660,50 @@ func probeWriteDuringReplay(kind string) string {
 	return res
 }
 
+// probeCancelPendingEvent: the event loop has snapshotted the listeners of an event - all-record listeners first,
+// then the listeners of that record - and is held up on an all-record listener whose consumer is slow; meanwhile a
+// one-record watcher further down the snapshot is cancelled and leaves.  When the slow consumer catches up, the
+// loop reaches the departed listener: it must not block there.  An innocent watcher has to see the next update.
+func probeCancelPendingEvent(kind string) string {
+	a := open(kind, test.NewClient())
+	time.Sleep(100 * time.Millisecond)
+	r0 := &rec{key: "k0", idok: true, tgtok: true, txok: true, payload: 1}
+	must(a.create(r0))
+	time.Sleep(50 * time.Millisecond)
+	inn := make(chan event, 1000)
+	must(a.watch(context.Background(), false, "", inn))
+	slow := make(chan event) // nobody reads yet
+	must(a.watch(context.Background(), false, "", slow))
+	ctx, cancel := context.WithCancel(context.Background())
+	vic := make(chan event, 1000)
+	must(a.watch(ctx, false, "k0", vic))
+	for i := 0; i < 3; i++ { // the third event finds the slow listener's goroutine still busy with the second
+		r0.payload++
+		must(a.update(r0))
+		time.Sleep(40 * time.Millisecond)
+	}
+	cancel()
+	time.Sleep(80 * time.Millisecond)
+	go func() {
+		for range slow {
+		}
+	}()
+	time.Sleep(80 * time.Millisecond)
+	r0.payload++
+	must(a.update(r0))
+	deadline := time.After(2 * time.Second)
+	for {
+		select {
+		case e := <-inn:
+			if e.version == r0.version {
+				return "served"
+			}
+		case <-deadline:
+			return "blocked"
+		}
+	}
+}
+
 func runProbeChild(name, kind string) {
 	res := "?"
 	switch name {
@@ -669,6 +713,8 @@ func runProbeChild(name, kind string) {
 		res = probeCancelInReplay(kind)
 	case "write-during-replay":
 		res = probeWriteDuringReplay(kind)
+	case "cancel-pending-event":
+		res = probeCancelPendingEvent(kind)
 	}
 	fmt.Println("PROBE-RESULT " + res)
 	os.Exit(0)
@@ -836,6 +882,9 @@ func main() {
 		}
 		if k != "prop2" {
 			probe(fmt.Sprintf("%d:p-replay-%s", *seed, k), "cancel-in-replay", k)
+			if k != "tx3" || v3cancel {
+				probe(fmt.Sprintf("%d:p-pending-%s", *seed, k), "cancel-pending-event", k)
+			}
 		}
 		probe(fmt.Sprintf("%d:p-order-%s", *seed, k), "write-during-replay", k)
 	}
